@@ -178,10 +178,27 @@ func (ps *pushSim) RoundTrip(req *http.Request) (*http.Response, error) {
 	success := p.class != 2
 	ack := p.ack
 	att := p.attempt
+	// The server renews the lease of an in-flight push on a best-effort timer. A request that
+	// is in flight for as long as the subscription's minimum backoff (its shortest possible
+	// lease) may lose that race: the delivery is then fetched again while this request is
+	// still open (a second push, or dead-lettering if it has used up its attempts). Such
+	// requests get the same narrow relaxations as a stalled server.
+	minLease := ps.sub.Cfg.MinB
+	if minLease <= 0 {
+		minLease = 10 * time.Second
+	}
+	relaxed := ps.stalled || t1.Sub(p.arrived) >= minLease
+	if relaxed && !ps.stalled {
+		r.Stats["push_slow_request_relaxed"]++
+	}
 	*ps.pending = append(*ps.pending, seqOp{S.commitSeq, func() *Violation {
 		e := r.M.AckIDs[ack]
 		if e == nil {
 			return nil
+		}
+		if relaxed && !ps.stalled && ps.sub.Cfg.fullDL() && e.State == stOut && e.Seen >= int(ps.sub.Cfg.MaxAttempts) {
+			r.M.deadLetterMaybe(e, t1)
+			e.DLMaybe = false // (still outstanding for the ack / nack that follows)
 		}
 		if ps.stopped {
 			// the endpoint was removed in this round: the pusher is being cancelled and may
@@ -198,7 +215,7 @@ func (ps *pushSim) RoundTrip(req *http.Request) (*http.Response, error) {
 			r.M.Ack(nil, []string{ack}, t1, t1)
 			// stalled-server runs: until the server has committed the ack (next quiescence) a
 			// second push of the same delivery may legitimately have started
-			e.Grace = ps.stalled
+			e.Grace = relaxed
 			r.M.probe("push_acked")
 		} else {
 			// nack: rescheduled by the backoff, counted from (at the earliest) now
@@ -207,12 +224,12 @@ func (ps *pushSim) RoundTrip(req *http.Request) (*http.Response, error) {
 				r.M.deadLetter(e, t1, t1.Add(time.Second))
 				r.M.probe("dl_via_nack")
 			} else if e.State == stOut {
-				if ps.stalled && ps.sub.Cfg.fullDL() && e.Seen+1 >= int(ps.sub.Cfg.MaxAttempts) {
+				if relaxed && ps.sub.Cfg.fullDL() && e.Seen+1 >= int(ps.sub.Cfg.MaxAttempts) {
 					// stalled-server runs: an overlapping second push may already have raised
 					// the attempt count, in which case this nack dead-letters the delivery
 					r.M.deadLetterMaybe(e, t1)
 				}
-				if !ps.stalled {
+				if !relaxed {
 					// (stalled-server runs: a lease-lapse duplicate may already be on its way)
 					e.LeaseLo = t1.Add(nominalBackoff(&ps.sub.Cfg, att))
 				}
